@@ -15,7 +15,8 @@ static void cmd_memcmp(const std::vector<std::string>& t, std::string& out) {
   }
   size_t n = a.size();
   memset(A.base, (int)g, A.mapped);
-  memset(B.base, (int)g, B.mapped);
+  // different filler behind the two operands: a comparison that looks at bytes beyond the length sees a difference
+  memset(B.base, (int)(g ^ 0xFF), B.mapped);
   uint8_t* pa = A.end() - offA - n;
   uint8_t* pb = B.end() - offB - n;
   memcpy(pa, a.data(), n);
